@@ -7,7 +7,7 @@ Not decided: that SQLite/WAL really loses exactly the statements since the last 
 import ast
 
 from ..model import norm, walk_with_nested_exprs
-from ..rules_commit import check_commit_discipline
+from ..rules_commit import check_commit_discipline, check_no_rollback
 
 TXN_ATTRS = ("atomic", "transaction", "manual_commit", "savepoint", "begin", "rollback", "session_start", "session_rollback")
 EXEMPT = {"auto_migrate": "module function run on its own short-lived connection for a start-up schema change, not part of any storage operation"}
@@ -30,6 +30,7 @@ def check(prog, rep):
     ]
     rep.not_decided = ["behaviour of the file under SIGKILL / fsync (trusted)", "peewee internals"]
     check_commit_discipline(prog, rep)
+    check_no_rollback(prog, rep)
 
     # D2: auto-committing store opens no transaction
     rep.rule("AUTOCOMMIT", "no PeeweeStorage method (nor module-level database construction) uses atomic/transaction/manual_commit/savepoint/begin/rollback or autocommit=False")
